@@ -711,6 +711,12 @@ class Interp:
         self._kill_store(st, target, fr)
         if isinstance(target, ast.Name) and aug is None and _is_fresh_empty(value):
             st.facts[('truth', target.id)] = False
+        if isinstance(target, ast.Name) and aug is None and isinstance(value, ast.Constant) \
+                and (isinstance(value.value, bool) or value.value is None):
+            # a local flag: private to this frame, it keeps its value across suspensions
+            st.facts[('truth', target.id)] = bool(value.value)
+            st.facts[('isnone', target.id)] = value.value is None
+            st.facts[('constflag', target.id)] = True
 
     def _kill_store(self, st: St, target, fr=None):
         path = _dotted(target)
@@ -899,6 +905,9 @@ class Interp:
                     not any('(' in part or '[' in part for part in key[1:]):
                 # comparisons between never re-bound locals/constants cannot change
                 continue
+            if key[0] in ('truth', 'isnone', 'constflag') and len(key) == 2 and \
+                    st.facts.get(('constflag', key[1])):
+                continue  # a local holding a constant: only this frame can change it
             dead.append(key)
         for key in dead:
             del st.facts[key]
